@@ -198,12 +198,7 @@ func c07Wait(a *Anchors, r *core.Report, wait *ssa.Function) {
 		r.Unk(rule, "C07.Q2|select", fn, "", "the wait receives from the response channel in a select", "no such select")
 		return
 	}
-	var refPar *ssa.Parameter
-	for _, pa := range wait.Params {
-		if pa.Name() == "ref" {
-			refPar = pa
-		}
-	}
+	refPar := paramOfType(wait, "gen.Ref", 0)
 	// the comparison r.ref != ref
 	var cmp *ssa.BinOp
 	eachInstr(wait, func(in ssa.Instruction) {
